@@ -160,6 +160,8 @@ class ExprMixin:
                 f = self.prog.resolve(r[2], c.func.id)
                 if f and f[0] == "ext" and f[1].split(".")[-1] == "attrgetter":
                     return ("attrgetter", tuple(a.value for a in c.args))
+                if f and f[0] == "ext" and f[1].split(".")[-1] == "methodcaller" and len(c.args) == 1:
+                    return ("methodcaller", c.args[0].value, ())       # NAME = methodcaller("stop"): calling NAME(x) is x.stop()
             st_ = self._static_term(c, r[2], 0)
             if st_ is not None:
                 return st_
@@ -304,6 +306,10 @@ class ExprMixin:
                 return ("cls", r[1])
             if r and r[0] == "func" and not r[1].is_generator:
                 return ("func", r[1])
+            if r and r[0] == "ext" and r[1].split(".")[-1] in ("deque", "OrderedDict", "defaultdict"):
+                return ("ext", r[1])          # queueFactory = deque: the container type itself
+            if r is None and expr.id in ("dict", "list", "set"):
+                return ("builtin", expr.id)
         if _is_object_call(expr):
             return ("sentinel", owner.qual + "." + name)
         if isinstance(expr, (ast.Tuple, ast.List)) and expr.elts:
@@ -530,6 +536,43 @@ class ExprMixin:
                 yield from self.get_item(base, key, s2, fx, n)
 
     def get_item(self, base, key, st, fx, node):
+        if isinstance(base, tuple) and base[:1] == ("dict",) and len(base) == 2 and all(is_const(k) for k, v in base[1]):
+            # a dict display with constant keys (a table of bound methods keyed by a flag): the entry under the key
+            tab = {k[1]: v for k, v in base[1]}
+            if is_const(key):
+                if key[1] in tab:
+                    yield "ok", tab[key[1]], st
+                else:
+                    yield "raise", self.exc(st, "KeyError", key), st
+                return
+            if set(tab) == {True, False}:
+                t = key
+                if isinstance(t, tuple) and t[:2] == ("call", ("builtin", "bool")) and len(t[2]) == 1:
+                    t = t[2][0]
+                if isinstance(t, tuple) and (t is not key or t[0] in ("cmp", "not", "boolop", "nonnull")):
+                    # keyed by a truth value: one continuation per outcome, as an `if` on it would give
+                    for r, pol, s2 in self._branch_term(t, st, fx, node, show(t)):
+                        yield "ok", tab[bool(pol)], s2
+                    return
+            if tab and all(isinstance(k, int) and not isinstance(k, bool) for k in tab) and len(tab) <= 8:
+                # keyed by a small number the path does not know (a QoS level): one continuation per key it can equal, and the miss
+                known = {k: self.truth(("cmp", "==", key, const(k)), st) for k in tab}
+                if not any(v is True for v in known.values()):
+                    s_miss = st.fork()
+                    for k in tab:
+                        self.assume(("cmp", "==", key, const(k)), False, s_miss)
+                    s_miss.conds = s_miss.conds + (Cond(("cmp", "in", key, ("tuple", tuple(const(k) for k in tab))), False, fx.func.file,
+                                                        getattr(node, "lineno", 0), "%s in table" % show(key)),)
+                    yield "raise", self.exc(s_miss, "KeyError", key), s_miss
+                for k in tab:
+                    if known[k] is False or (any(v is True for v in known.values()) and known[k] is not True):
+                        continue
+                    s_k = st.fork()
+                    self.assume(("cmp", "==", key, const(k)), True, s_k)
+                    s_k.conds = s_k.conds + (Cond(("cmp", "==", key, const(k)), True, fx.func.file, getattr(node, "lineno", 0),
+                                                  "%s == %r" % (show(key), k)),)
+                    yield "ok", tab[k], s_k
+                return
         if isinstance(base, tuple):
             if base[0] == "regtop":
                 if isinstance(key, tuple) and key[:1] == ("param",):
@@ -818,6 +861,24 @@ class ExprMixin:
             return True     # what a registry holds is a request object (emit() refuses a None stored into a registry)
         if t[0] == "const":
             return t[1] is not None
+        if t[0] == "binop":
+            return True     # the result of arithmetic is a number (None as an operand raises instead)
+        if t[0] == "boolop" and t[1] == "Or" and t[2]:
+            # a or b or c: one of the operands; not None when the last one is not and the earlier ones are not None either (None is falsy:
+            # it is never the one `or` stops at unless it is the last)
+            last = self.nonnull_known(t[2][-1])
+            if last is True:
+                return True
+        return None
+
+    def truthy_known(self, t):
+        """True when the term can only be a truthy value: a truthy constant, or `a or b or c` whose last operand is one."""
+        if not isinstance(t, tuple):
+            return None
+        if t[0] == "const":
+            return bool(t[1])
+        if t[0] == "boolop" and t[1] == "Or" and t[2] and self.truthy_known(t[2][-1]) is True:
+            return True
         return None
 
     def e_IfExp(self, n, st, fx):
@@ -1106,6 +1167,8 @@ class ExprMixin:
                 same = t[2] == t[3]
                 if same or t[2][1] != t[3][1]:
                     return same if t[1] == "is" else (not same)
+            if t[1] in ("==", "!=") and is_const(t[3]) and not t[3][1] and t[3][1] is not None and self.truthy_known(t[2]) is True:
+                return t[1] == "!="       # a value that is never falsy (`x or 1`) does not equal 0 / '' / False
             neg = ("cmp", NEG.get(t[1], "?"), t[2], t[3])
             if neg in st.facts:
                 return not st.facts[neg]
